@@ -98,8 +98,7 @@ def check_header(version, app_id) -> None:
     if tuple(back.netqasm_version) != tuple(version) or back.app_id != app_id or back.instructions != []:
         raise Failure("header:dec", case, f"reference header decodes as {back.netqasm_version} {back.app_id}")
     # the header of an object that was already encoded once follows later changes of its app id (setter and instantiate)
-    other = (app_id * 7 + 1) % 65536
-    for how in ("setter", "instantiate"):
+    for how, other in (("setter", (app_id * 7 + 1) % 65536), ("instantiate", (app_id * 7 + 1) % 65536), ("setter", 0 if app_id else 9), ("instantiate", 0 if app_id else 9)):
         s2 = Subroutine(instructions=[], netqasm_version=tuple(version), app_id=app_id)
         bytes(s2)
         try:
